@@ -22,7 +22,7 @@ ASSUMPTIONS = ['vf/render_gen.py renders the documented forms; a template\'s dom
                'documented rules make the text ambiguous (two-digit years outside the pivot window)',
                'missing time fields come from the default (midnight)']
 MANIFEST = {
-    'technique': 'runtime round-trip monitor: independent multi-template renderer -> real parse() -> exact comparison, per process TZ',
+    'technique': 'runtime round-trip monitor: independent multi-template renderer -> real parse() -> exact comparison, per process TZ; plus the same parse() calls from four free-running threads with injected yields (sys.monitoring), compared with the single-threaded outcomes',
     'level_text': 'The real generic parser is executed on tens of thousands of renderings that cover the template x boundary x '
                   'offset x flag x process-TZ product named by the property; expected values come from the renderer.  '
                   'Exploration: held on the renderings observed; one open finding (K4) is classified by mechanism.',
